@@ -1010,6 +1010,10 @@ package sftp
 //@ ghost var sweeping bool
 
 //@ func (*Server).Serve
+//@   update before call (*packetManager).workerChan#1: ghost.ctlJoined = false
+//@   update after call (*packetManager).wait#1: ghost.ctlJoined = true
+//@   assert before call (*packetManager).wait#1: ghost.workersJoined
+//@   ensures ghost.ctlJoined
 //@   loop 1 ghost rxOrder
 //@   update before call (*conn).recvPacket#1: ghost.rxOrder = arg1
 //@   assert before send pktChan#1: arg1.orderid == ghost.rxOrder
@@ -1496,7 +1500,7 @@ package sftp
 //@   assert before call copy#1: s.alloc != nil ==> ghost.relOrder == ghost.sentOrder
 // (with the allocator on, the pages of every answered request are released -- after its response was written)
 //@   property C02, C18, C15
-//@   requires pmOK(s) && queuesOK(s)
+//@   requires pmOK(s)
 //@   loop 1 invariant pmOK(s)
 //@   loop 1 assume queuesOK(s)
 //@   loop 1 ghost sentOrder
@@ -1511,6 +1515,10 @@ package sftp
 //@ ghost var notified bool
 
 //@ func (*RequestServer).Serve
+//@   update before call (*packetManager).workerChan#1: ghost.ctlJoined = false
+//@   update after call (*packetManager).wait#1: ghost.ctlJoined = true
+//@   assert before call (*packetManager).wait#1: ghost.workersJoined
+//@   ensures ghost.ctlJoined
 //@   property C07, C11, C14
 //@   requires rsOK(rs) && rs.Reader != nil
 //@   update before call (*packetManager).workerChan#1: ghost.workersJoined = false
@@ -2041,3 +2049,33 @@ package sftp
 //@   results flags, fs
 //@   requires fi != nil
 //@   ensures fs != nil
+
+// ---------------------------------------------------------------------------
+// shutdown of the packet manager (C02: every received request is answered, also when the input ends right behind it)
+
+//@ ghost var drained bool
+//@ ghost var ctlJoined bool
+
+//@ func (*packetManager).drain
+//@   property C02
+//@   requires pmOK(s)
+//@   loop 1 invariant pmOK(s)
+//@   channel global:type:sftp.orderedPacket invariant m != nil
+//@   update after call (*packetManager).maybeSendPackets#1: ghost.drained = true
+//@   ensures ghost.drained
+// (returns only through the default case -- both channels empty -- and after a last maybeSendPackets)
+
+//@ func (*packetManager).controller
+//@   property C02
+//@   requires pmOK(s)
+//@   loop 1 invariant pmOK(s)
+//@   loop 1 ghost drained
+//@   update before select#1: ghost.drained = false
+//@   update after call (*packetManager).drain#1: ghost.drained = true
+//@   assert before call close#1: ghost.drained
+// (the controller announces its exit -- close(done), which both Serve loops wait for -- only after draining)
+
+//@ func (*packetManager).wait
+//@   property C02
+//@   requires s != nil
+//@   modifies nothing
